@@ -1522,6 +1522,61 @@ func (m *Model) ruleERRDROPPED(r *Results) {
 	if n == 0 {
 		r.info(rule, "instances", "-", "no error value is only compared with nil")
 	}
+	// A pointer that comes with an error nobody looks at may be nil: it is not dereferenced.
+	nd := 0
+	for _, fn := range m.Funcs {
+		m.eachCall(fn, func(c ssa.CallInstruction) {
+			call, ok := c.(*ssa.Call)
+			if !ok || call.Referrers() == nil {
+				return
+			}
+			g := call.Common().StaticCallee()
+			if g == nil || !m.inPkg(g) {
+				return
+			}
+			tup, ok := call.Type().(*types.Tuple)
+			if !ok || tup.Len() < 2 || !isErrorType(tup.At(tup.Len()-1).Type()) {
+				return
+			}
+			var errEx *ssa.Extract
+			var ptrs []*ssa.Extract
+			for _, ref := range *call.Referrers() {
+				ex, ok := ref.(*ssa.Extract)
+				if !ok {
+					continue
+				}
+				if ex.Index == tup.Len()-1 {
+					errEx = ex
+				} else if _, isPtr := ex.Type().Underlying().(*types.Pointer); isPtr {
+					ptrs = append(ptrs, ex)
+				}
+			}
+			if errEx != nil && errEx.Referrers() != nil && len(*errEx.Referrers()) > 0 {
+				return // the error is looked at
+			}
+			for _, p := range ptrs {
+				if p.Referrers() == nil {
+					continue
+				}
+				deref := ""
+				for _, u := range *p.Referrers() {
+					switch x := u.(type) {
+					case *ssa.FieldAddr:
+						if x.X == ssa.Value(p) {
+							deref = m.instrPos(x)
+						}
+					case *ssa.UnOp:
+						if x.Op == token.MUL && x.X == ssa.Value(p) {
+							deref = m.instrPos(x)
+						}
+					}
+				}
+				nd++
+				r.check(deref == "", rule, m.declName(fn)+" / pointer from "+g.Name()+" is not dereferenced while its error is ignored", m.instrPos(call), "", "the error returned by "+g.Name()+" is discarded and the pointer that came with it is dereferenced at "+deref+": when the call fails (a closed bucket fails every call) the pointer is nil, and in a goroutine of the library that is a panic nobody can recover")
+			}
+		})
+	}
+	r.ok(rule, "pointers with an ignored error", "-", "%d pointer result(s) whose error is discarded", nd)
 }
 
 // ---------------------------------------------------------------- R-NIL-ROW
@@ -1634,6 +1689,52 @@ func (m *Model) ruleNILROW(r *Results) {
 					if b == call.Block() && i > indexIn(b, call) || reach[b.Index] {
 						bad = m.instrPos(u)
 					}
+				}
+			}
+			// the row loop is left only when the rows are exhausted (which closes the result set), by
+			// leaving the function, or through a Close: a `break` that carries on with the result set
+			// still open keeps its connection - the only one of an in-memory bucket - and the next
+			// statement of the same function waits for it for ever, with the caller's locks held
+			{
+				var nextBlk *ssa.BasicBlock
+				closes := map[*ssa.BasicBlock]bool{}
+				for _, b := range fn.Blocks {
+					for _, ins := range b.Instrs {
+						u, ok := ins.(ssa.CallInstruction)
+						if !ok || u.Common().IsInvoke() || len(u.Common().Args) == 0 || !isRows[stripConv(u.Common().Args[0])] {
+							continue
+						}
+						if f := u.Common().StaticCallee(); f != nil {
+							if f.Name() == "Next" && inCycle(b) {
+								nextBlk = b
+							}
+							if f.Name() == "Close" {
+								closes[b] = true
+							}
+						}
+					}
+				}
+				if nextBlk != nil {
+					leak := ""
+					for _, x := range fn.Blocks {
+						if x == nextBlk || !sameCycle(x, nextBlk) {
+							continue
+						}
+						for _, sx := range x.Succs {
+							if sameCycle(sx, nextBlk) || closes[sx] || closes[x] {
+								continue
+							}
+							last := sx.Instrs[len(sx.Instrs)-1]
+							if _, isRet := last.(*ssa.Return); isRet {
+								continue
+							}
+							if _, isPanic := last.(*ssa.Panic); isPanic {
+								continue
+							}
+							leak = m.pos(x.Instrs[len(x.Instrs)-1].Pos())
+						}
+					}
+					r.check(leak == "", rule, m.declName(fn)+" / the row loop is left with the result set exhausted or closed", m.instrPos(call), "the loop over the rows is left through Next() == false, by returning, or through Close", "the loop over the rows can be left from its middle (near "+leak+") with the result set still open while the function carries on: the connection stays checked out, and on an in-memory bucket (one connection) the next statement blocks for ever with the caller's locks held")
 				}
 			}
 			r.check(bad == "", rule, key, m.instrPos(call), "every method call on the result set lies behind the test that the query's error is nil", "a method of the result set is called (or deferred) at "+bad+" where the query may have failed: the result set is nil then (a closed bucket's handle fails every query), and the call is a nil-pointer panic instead of the error")
